@@ -11,6 +11,56 @@ import numpy as np
 DTYPES = {'float': float, 'int': int, 'bool': bool, 'str': '<U1'}
 
 
+class InjectedSourceError(Exception):
+    """Raised by a faulty operand (the caller's data source failing while it is being read)."""
+
+
+class Faulty:
+    """An operand that is read lazily and fails part-way: the analogue of an I/O error in the caller's data source.
+
+    mode 'getitem': a sequence-like (only __len__ / __getitem__) whose element `at` cannot be read;
+    mode 'seq': the same, registered as a collections.abc.Sequence; mode 'array': __array__ raises; mode 'len': __len__
+    raises. `at` None: the source works (control). `fired` counts the injected errors actually raised.
+    """
+
+    def __init__(self, items, mode, at):
+        self.items, self.mode, self.at, self.fired = list(items), mode, at, 0
+
+    def _boom(self, what):
+        self.fired += 1
+        raise InjectedSourceError(f'injected: data source failed in {what}')
+
+    def __len__(self):
+        if self.mode == 'len' and self.at is not None:
+            self._boom('__len__')
+        return len(self.items)
+
+    def __getitem__(self, i):
+        if isinstance(i, slice):
+            return [self[j] for j in range(*i.indices(len(self.items)))]
+        if i < 0:
+            i += len(self.items)
+        if not 0 <= i < len(self.items):
+            raise IndexError(i)
+        if self.mode in ('getitem', 'seq') and self.at is not None and i == self.at:
+            self._boom('__getitem__')
+        return self.items[i]
+
+
+class FaultyArray(Faulty):
+    def __array__(self, dtype=None, copy=None):
+        if self.at is not None:
+            self._boom('__array__')
+        return np.array(self.items, dtype=dtype)
+
+
+from collections.abc import Sequence as _Sequence  # noqa: E402
+
+
+class FaultySeq(Faulty, _Sequence):
+    pass
+
+
 def make_value(vs, n, tiny=False):
     """Build the Python operand described by a value spec. Element i of a sequence is derived from base + i."""
     k = vs['k']
@@ -71,6 +121,13 @@ def make_value(vs, n, tiny=False):
             a = np.array(items) if items else np.array([], dtype=float)
             a.setflags(write=False)
             return a
+        if c.startswith('faulty-'):
+            mode = c.split('-', 1)[1]
+            at = vs.get('at')
+            if at is not None:
+                at = at % max(1, L)
+            cls = {'array': FaultyArray, 'seq': FaultySeq}.get(mode, Faulty)
+            return cls(items, mode, at)
         if c == 'series':
             import pandas as pd
 
@@ -123,6 +180,8 @@ def _lossy(arr_dtype, v):
 
 def expect_whole(ref_arr, v, n):
     """Whole-series assignment (attribute or name key)."""
+    if isinstance(v, Faulty):
+        return 'may', None  # whatever happens, a failure must leave the object as it was (asserted by the caller)
     dt = ref_arr.dtype
     if isinstance(v, (list, tuple, range)):
         try:
@@ -168,6 +227,8 @@ def expect_whole(ref_arr, v, n):
 
 def expect_positions(ref_arr, positions, v):
     """Assignment to the listed positions (label, label slice, in-place element)."""
+    if isinstance(v, Faulty):
+        return 'may', None  # whatever happens, a failure must leave the object as it was (asserted by the caller)
     dt = ref_arr.dtype
     tmp = ref_arr.copy()
     if isinstance(v, (list, tuple)) and any(isinstance(x, (list, tuple)) for x in v):
@@ -190,6 +251,8 @@ def expect_add(v, dtype, n, default_dtype=None):
     """add_variable(name, v, dtype=dtype). Returns (class, array or None). dtype None -> inferred by NumPy (read back
     from the object afterwards), unless the family has a default dtype (models)."""
     use = dtype if dtype is not None else default_dtype
+    if isinstance(v, Faulty):
+        return 'may', None
     if isinstance(v, (list, tuple, range)):
         try:
             a = np.array(v)
